@@ -17,6 +17,7 @@ Per run:
      kernel-checked enclosures of the integral (Interval's `integral` tactic over Coquelicot RInt).
 """
 import copy as _copy
+import json
 import math
 import os
 import pickle
@@ -535,7 +536,7 @@ class Chain(Entry):
                 cs.append({"kw": kw, "z1": z1, "z2": z2, "family": "hand"})
         kinds = ["flat", "flat", "concordance", "open", "closed", "open", "closed", "free-ol"]
         zk = ["from0", "same", "tiny", "low", "edge", "any", "any", "any"]
-        for i in range(ctx.n(130, 1000)):
+        for i in range(ctx.n(100, 1000)):
             kind = kinds[i % len(kinds)]
             kw = gen_cosmo(ctx, kind, K)
             z1, z2 = gen_zpair(r, r.choice(zk))
@@ -753,7 +754,8 @@ class Dispatch(Entry):
             # (palette), so that the measured scalar table stays small.  EVERY C loop (5 methods x vec1/vec2/2vec, the
             # three one-argument loops) gets a length just beyond a power of two; thorough adds more and longer ones.
             loops = [(m, sh) for m in TWO for sh in ("as", "sa", "aa")] + [(m, "a") for m in ONE]
-            plan = [(m, sh, [4097, 8193, 1025][j % 3]) for j, (m, sh) in enumerate(loops)]
+            plan = [(m, sh, ([4097, 1025, 2049][j % 3] if j % 9 else 8193) if ctx.quick() else [4097, 8193, 1025][j % 3])
+                    for j, (m, sh) in enumerate(loops)]
             if not ctx.quick():
                 plan += [(m, sh, [8191, 4095, 16385][j % 3]) for j, (m, sh) in enumerate(loops)]
                 plan += [("Dc", "aa", 65537), ("sigmacritinv", "sa", 100000), ("Da", "as", 65536), ("dV", "a", 100000),
@@ -972,7 +974,14 @@ class Sequence(Entry):
                     ["call", "y", meth, [{"arr": "a"}, 5.0]], ["setarr", "a", v2], ["call", "x", meth, [{"arr": "a"}, 5.0]],
                     ["call", "y", meth, [0.0, {"arr": "a"}]], ["newarr", "b", v2], ["call", "x", meth, [{"arr": "b"}, 5.0]],
                     ["setarr", "a", v1], ["call", "x", meth, [{"arr": "a"}, {"arr": "b"}]], ["call", "x", "Ez_inverse", [{"arr": "a"}]],
-                    ["setarr", "a", v2], ["call", "x", "Ez_inverse", [{"arr": "a"}]], ["call", "y", "dV", [{"arr": "a"}]]]
+                    ["setarr", "a", v2], ["call", "x", "Ez_inverse", [{"arr": "a"}]], ["call", "y", "dV", [{"arr": "a"}]],
+                    # ownership / aliasing: the caller overwrites a RETURNED array and calls again; a returned array is passed
+                    # back as an argument; one array object serves as both bounds
+                    ["setarr", "a", v1], ["call", "x", meth, [{"arr": "a"}, 5.0], "r"], ["scribble", "r", -1.0],
+                    ["call", "x", meth, [{"arr": "a"}, 5.0], "r2"], ["call", "y", meth, [{"arr": "a"}, 5.0]],
+                    ["call", "x", "Ez_inverse", [{"arr": "a"}], "e"], ["call", "y", meth, [{"arr": "e"}, 5.0]],
+                    ["scribble", "e", 0.5], ["call", "x", "Ez_inverse", [{"arr": "a"}]],
+                    ["call", "x", meth, [{"arr": "a"}, {"arr": "a"}]], ["call", "y", "Dc", [{"arr": "a"}, {"arr": "a"}]]]
         if t == 5:      # churn: many short-lived objects of alternating parameter sets (address / id() reuse by later objects)
             st = []
             for i, kw in enumerate([P, Q, R, P]):
@@ -1044,8 +1053,15 @@ class Sequence(Entry):
         snap = self.lineage(steps)
         items, seq, alone = [], [], []
         live = {}
+        dyn = {}                       # arrays whose contents come from the execution (returned results, scribbles)
         for i, (st, o) in enumerate(zip(steps, out)):
             lin, arrs = snap[i]
+            if st[0] in ("setarr", "newarr"):
+                dyn.pop(st[1], None)
+            if st[0] == "scribble":
+                base = dyn.get(st[1], arrs.get(st[1], []))
+                dyn[st[1]] = [st[2]] * len(base)
+            arrs = dict(arrs, **dyn)
             if st[0] in ("new", "clone", "rep", "reinit"):
                 items.append([st[1], lin[st[1]][0], lin[st[1]][2], o])
                 if st[0] != "rep":
@@ -1064,6 +1080,8 @@ class Sequence(Entry):
                         ref.append(["newarr", a["arr"], arrs[a["arr"]]])
                 ref.append(["call", cur, st[2], st[3]])
                 rr = self.server.run(ref)
+                if len(st) > 4 and st[4] and o[0] == "ok":
+                    dyn[st[4]] = [struct.unpack("<d", struct.pack("<Q", b))[0] for b in o[1]]
                 seq.append(o)
                 alone.append(rr["out"][-1] if "out" in rr else ["err", "crash"])
         # every live object's reported parameters once more at the end of the sequence (in a run of its own that repeats
@@ -1210,7 +1228,18 @@ def run_certificates(ctx, results):
                               "the Hogg chain (criterion of the statement cannot be certified)" % OUTKEY[q],
                               {"kind": "failing-input", "entry": "cert", "case": case, "quantity": q,
                                "impl_output": res, "class": None}, found_input=True)
-    # the kernel-checked lemmas (one per case and quantity)
+    # the kernel-checked lemmas (one per case and quantity); quick: the cases of every third chain case (all were already
+    # evaluated with the verified checker above), thorough: all
+    if ctx.quick():
+        keep, seen = [], {}
+        for t in good:
+            k = json.dumps(t[0], sort_keys=True, default=str)
+            if k not in seen:
+                seen[k] = len(seen)
+            if seen[k] % 3 == 0:
+                keep.append(t)
+        ctx.count("certificates_evaluated_only", len(good) - len(keep))
+        good = keep
     res = core.coq_lemmas(os.path.join(ctx.work, "certlem"), pre, [(t[4], t[5]) for t in good], shard=400, tag="cert")
     nbad = 0
     for t, (ok, msg) in zip(good, res):
@@ -1291,7 +1320,7 @@ def run_accuracy(ctx, results):
         if any(b.startswith("rep[") for b in nonfinite_outputs(res[1])):
             continue                          # reported as a failing input by run_certificates
         sel.append((case, res[1]))
-    sel = sel[:ctx.n(24, 100)]
+    sel = sel[:ctx.n(14, 100)]
     lem, owner = [], []
     for case, res in sel:
         conj = accuracy_lemma(case, res)
@@ -1343,6 +1372,45 @@ def run_accuracy(ctx, results):
 # ----------------------------------------------------------------------------------------------
 # per-run obligations on the regenerated constants and on the tables
 # ----------------------------------------------------------------------------------------------
+PRE_F = ("From Coq Require Import ZArith List PrimFloat.\nFrom EsVerif.Common Require Import Base.\n"
+         "From EsVerif.C11 Require Import Gen Model ModelF ProofsL.\n")
+# cosmolib.c translated statement by statement (Gen.<name>_src) = the hand-written binary64 model (ModelF)
+LEM_F = [
+    ("cosmolib.c ez_inverse as translated = ModelF.ez_inverseF",
+     "forall c z, ez_inverse_src (fflat c) (fom c) (fol c) (fok c) z = ez_inverseF c z",
+     "intros; unfold ez_inverse_src, ez_inverseF; destruct (fflat c); reflexivity."),
+    ("cosmolib.c ez_inverse_integral (loop over the NPTS table) and Dc as translated = ModelF.ezinv_integralF / DcF",
+     "(forall c a b, ez_inverse_integral_src (fx c) (fw c) (ez_inverseF c) a b = ezinv_integralF c a b) /\\ "
+     "(forall c a b, Dc_src (fDH c) (ezinv_integralF c) a b = DcF c a b)", "split; reflexivity."),
+    ("cosmolib.c Dm (flat / sinh / sin branches) as translated = ModelF.DmF, libm value supplied by the oracle",
+     "forall libm c a b s, (fflat c = true \\/ ask libm (DcF c a b * tcfacF c)%float = Some s) -> "
+     "DmF libm c a b = Some (Dm_src (fflat c) (fok c) (tcfacF c) (DcF c) (fun _ => s) (fun _ => s) a b)",
+     "intros libm c a b s H; unfold DmF, Dm_src; destruct (fflat c); [reflexivity|]; destruct H as [H|H]; [discriminate|]; "
+     "rewrite H; cbn; destruct (PrimFloat.ltb _ (fok c)); reflexivity."),
+    ("cosmolib.c Da, Dl as translated = ModelF.DaF / DlF",
+     "forall libm c a b, DaF libm c a b = option_map (fun d => Da_src (fun _ _ => d) a b) (DmF libm c a b) /\\ "
+     "DlF libm c a b = option_map (fun d => Dl_src (fun _ _ => d) a b) (DmF libm c a b)", "split; reflexivity."),
+    ("cosmolib.c dV as translated = ModelF.dVF",
+     "forall libm c z, dVF libm c z = option_map (fun da => dV_src (fDH c) (fun _ _ => da) (ez_inverseF c) z) (DaF libm c 0 z)",
+     "intros; unfold dVF; destruct (DaF libm c 0 z); reflexivity."),
+    ("cosmolib.c scinv (guard zs <= zl, three Da calls, constant) as translated = ModelF.scinvF",
+     "forall libm c zl zs, let F := fun a b => match DaF libm c a b with Some v => v | None => 0%float end in "
+     "(PrimFloat.leb zs zl = true \\/ (DaF libm c 0 zl <> None /\\ DaF libm c 0 zs <> None /\\ DaF libm c zl zs <> None)) -> "
+     "scinvF libm c zl zs = Some (scinv_src F zl zs)",
+     "intros libm c zl zs F H; unfold scinvF, scinv_src, F; destruct (PrimFloat.leb zs zl); [reflexivity|]; "
+     "destruct H as [H|(H1 & H2 & H3)]; [discriminate|]; "
+     "destruct (DaF libm c 0 zl), (DaF libm c 0 zs), (DaF libm c zl zs); try congruence; reflexivity."),
+    ("cosmolib.c cosmo_new's curvature factor as translated = ModelF.tcfacF",
+     "forall c, tcfac_src (fflat c) (fDH c) (fok c) = tcfacF c",
+     "intros; unfold tcfac_src, tcfacF; destruct (fflat c); cbn; [reflexivity|destruct (PrimFloat.ltb _ (fok c)); reflexivity]."),
+    ("cosmolib.c V (loop over the VNPTS table, 4 pi) as translated = ModelF.VF",
+     "forall libm c a b r, VF libm c a b = Some r -> "
+     "r = V_src (fvx c) (fvw c) (fun z => match dVF libm c z with Some d => d | None => 0%float end) a b",
+     "intros libm c a b r H; unfold VF in H; destruct (gl_sumF_opt _ _ _ _ _) as [v|] eqn:G; [|discriminate]; cbn in H; "
+     "inversion H; subst r; unfold gl_sumF_opt in G; apply fold_opt_unwrap in G; unfold V_src; cbv zeta; rewrite G; reflexivity."),
+]
+
+
 def run_constants(ctx):
     lem = [
         ("documented quadrature orders: NPTS = 5 /\\ VNPTS = 10", "NPTS = 5%nat /\\ VNPTS = 10%nat", "split; reflexivity."),
@@ -1379,14 +1447,18 @@ def run_constants(ctx):
          "forall (num : Type) (o : @cosmo_obj num), (let a := reduce_args o in (a_H0 a, a_h a, a_flat a, a_om a, a_ol a, a_ok a)) "
          "= reduce_args_src (s_H0 o) (c_flat o) (c_om o) (c_ol o) (c_ok o)", "intros; reflexivity."),
     ]
-    out = core.coq_lemmas(os.path.join(ctx.work, "const"), PRE_ACC + "From EsVerif.C11 Require Import Exec.\n",
+    out = core.coq_lemmas(os.path.join(ctx.work, "const"), PRE_ACC + "From EsVerif.C11 Require Import ModelF Exec ProofsL.\n",
                           [(s, p) for _, s, p in lem], shard=8, tag="const")
+    out += core.coq_lemmas(os.path.join(ctx.work, "constF"), PRE_F, [(s, p) for _, s, p in LEM_F], shard=8, tag="constF")
+    lem = lem + LEM_F
+    allok = all(ok for ok, _m in out)
     for (name, s, _p), (ok, msg) in zip(lem, out):
         ctx.obligation("Gen: " + name, ok, msg)
         if not ok:
             ctx.violation("a constant / function regenerated from the sources no longer matches the documented or modelled one: " + name,
                           {"kind": "gen-obligation", "statement": s, "msg": msg[-800:],
                            "no_longer_checks": "Gen obligation: " + name}, found_input=False)
+    return allok
 
 
 def run_tables(ctx):
@@ -1466,6 +1538,13 @@ def run(ctx, replay=None):
         ctx.obligation("Gen.v regenerated from cosmolib.h / cosmolib.c / cosmology.py", False, str(e))
         ctx.violation("translator failed (fail-closed): %s" % e, {"kind": "translate", "error": str(e),
                                                                     "no_longer_checks": "tie Gen.v <-> sources"}, found_input=False)
+        # no masking: the correspondence and the checkers still run, against the LAST GOOD generated model (Gen.v.good is
+        # written by every run whose Gen obligations all hold), so that a failing input is searched for and reported as well
+        good = GEN_PATH + ".good"
+        if os.path.exists(good) and open(good).read() != (open(GEN_PATH).read() if os.path.exists(GEN_PATH) else None):
+            with open(GEN_PATH, "w") as f:
+                f.write(open(good).read())
+            ctx.notes.append("Gen.v restored from Gen.v.good after the translation failure")
         c11_translate.VALUES.clear()
         c11_translate.VALUES.update({'NPTS': 5, 'VNPTS': 10, 'C_CLIGHT': 299792.458,
                                      'FOUR_PI_G_OVER_C_SQUARED': 6.0150504541630152e-07, 'M_PI': math.pi, 'GAULEG_EPS': 4e-11,
@@ -1481,9 +1560,18 @@ def run(ctx, replay=None):
         nonlocal t0
         ctx.count("wall_s:" + name, round(time.time() - t0, 1))
         t0 = time.time()
-    if not core.proof_step(ctx, PID, core.ALLOW_DISCRETE + core.ALLOW_REALS + core.ALLOW_INTERVAL + core.ALLOW_FLOAT,
-                           extra_targets=["theories/C11/Cert.vo"]):
-        return
+    allow = core.ALLOW_DISCRETE + core.ALLOW_REALS + core.ALLOW_INTERVAL + core.ALLOW_FLOAT
+    if not core.proof_step(ctx, PID, allow, extra_targets=["theories/C11/Cert.vo"]):
+        # no masking: a regenerated Gen.v that does not build (reported above) must not stop the dynamic side; fall back to
+        # the last good generated model and go on
+        good = GEN_PATH + ".good"
+        if not (os.path.exists(good) and open(good).read() != open(GEN_PATH).read()):
+            return
+        with open(GEN_PATH, "w") as f:
+            f.write(open(good).read())
+        ctx.notes.append("Gen.v did not build; restored from Gen.v.good for the dynamic checks")
+        if not core.proof_step(ctx, PID, allow, extra_targets=["theories/C11/Cert.vo"]):
+            return
     lap("proof_step")
     chain = Chain()
     sequence = Sequence()
@@ -1502,7 +1590,11 @@ def run(ctx, replay=None):
             return
     else:
         # 2. constants and tables
-        run_constants(ctx)
+        if run_constants(ctx) and not any(v["what"].startswith("translator failed") for v in ctx.violations):
+            txt = open(GEN_PATH).read()
+            if not os.path.exists(GEN_PATH + ".good") or open(GEN_PATH + ".good").read() != txt:
+                with open(GEN_PATH + ".good", "w") as f:
+                    f.write(txt)
         lap("constants")
     cosv = run_tables(ctx)
     lap("tables")
